@@ -25,7 +25,53 @@ pub fn check(h: &History, obs: &Obs) -> CheckResult {
     r
 }
 
+/// A plain 488.2 instrument using the provided `IEEE4882::stb()`: (esr, ese, sre, mav).
+#[derive(Clone, Copy, Debug, serde::Serialize, serde::Deserialize, Hash)]
+pub struct Plain {
+    pub esr: u8,
+    pub ese: u8,
+    pub sre: u8,
+    pub mav: bool,
+}
+
+pub fn check_plain(c: &Plain, obs: &Obs) -> CheckResult {
+    use crate::dev488::{PlainDev, PLAIN_TREE};
+    use crate::ensure;
+    let mut dev = PlainDev { esr: c.esr, ese: 0, sre: 0 };
+    let mut ctx = scpi::Context::default();
+    ctx.mav = c.mav;
+    let mut resp: Vec<u8> = Vec::new();
+    let msg = format!("*ESE {};*SRE {};*STB?;*ESE?;*SRE?", c.ese, c.sre);
+    let r = PLAIN_TREE.run(msg.as_bytes(), &mut dev, &mut ctx, &mut resp);
+    ensure!(r.is_ok(), "plain-device", "{msg:?} fails with {:?}", r.map_err(|e| e.get_code()));
+    let esb = c.esr & c.ese != 0;
+    let low = ((esb as u8) << 5) | ((c.mav as u8) << 4);
+    let mss = low & c.sre != 0;
+    let want = format!("{};{};{}\n", low | ((mss as u8) << 6), c.ese, c.sre);
+    obs.label("plain 488.2 device (provided stb())");
+    obs.nontrivial_if(esb || c.mav, c);
+    ensure!(resp == want.as_bytes(), "plain-device-stb", "ESR={:#04x} MAV={}: {msg:?} answers {:?}, the 488.2 status model says {want:?}", c.esr, c.mav, String::from_utf8_lossy(&resp));
+    Ok(())
+}
+
 fn run(e: &Engine) {
+    // a plain 488.2 device that keeps the trait's provided stb(): EVERY *ESE x EVERY *SRE x ESR patterns x MAV
+    e.enumerate::<Plain, _, _>(
+        "plain-488-device-every-ese-sre",
+        256,
+        |ese, f| {
+            for sre in 0..=255u8 {
+                for esr in [0u8, 0x01, 0x20, 0x3D, 0x80, 0xFF] {
+                    for mav in [false, true] {
+                        if !f(Plain { esr, ese: ese as u8, sre, mav }) {
+                            return;
+                        }
+                    }
+                }
+            }
+        },
+        check_plain,
+    );
     e.proptest("common-command-histories", e.tier.pick(60_000, 3_000_000), || history([10, 3, 1, 2, 2], 30, 1), check);
     e.require_fraction("*STB? with >= 3 non-zero inputs", "history", 0.2);
     e.require_fraction("MAV both ways", "history", 0.5);
